@@ -54,6 +54,10 @@ impl Outcome {
     pub fn is_panic(&self) -> bool {
         matches!(self, Outcome::Panic(_))
     }
+    /// The render was cut off by the harness's element budget (not a library panic).
+    pub fn is_budget(&self) -> bool {
+        matches!(self, Outcome::Panic(m) if m == crate::sched::BUDGET_MSG)
+    }
     pub fn kind(&self) -> &'static str {
         match self {
             Outcome::Ok(_) => "ok",
